@@ -363,7 +363,8 @@ def coq_calculus_compare(tag, cases, shard=150):
         for (_, f, k, vecs) in sh:
             vl = vlib.cq_list(["(%s, %s)" % (vlib.cq_list([str(x) for x in v]), cq_scmat(m)) for v, m in vecs])
             lits.append("(%s, %d, %s)" % (cread.cq_func(f), k, vl))
-        text = CALC_HEADER + "Definition cases := " + vlib.cq_list(lits) + ".\nEval vm_compute in bad 0 cases.\n"
+        text = (CALC_HEADER + "Definition cases : list (func_src * nat * list (list nat * option (list (list Sc)))) := " + vlib.cq_list(lits) +
+                ".\nEval vm_compute in bad 0 cases.\n")
         jobs.append((f"{tag}_calc_s{si}", text))
     outs = vlib.coq_eval_many(jobs, timeout=1200)
     for si, sh in enumerate(shards):
